@@ -29,7 +29,9 @@ RULE = ("cases: bundled cones over their parameter ranges (ConeTheta2D θ=1°…
         "and random/θ/ice-cream cones with every row scaled by its own factor from {0.1,0.4,0.5,2,3.7,10}) incl. the "
         "scaling law α_n(diag(c)W)=c_n·α_n(W) on the real code; integer-dtype matrices (int64/int32 arrays and nested int "
         "lists: identity 2…5, signed permutations, harness/cones.py rows, random integer rows) whose α must be a float "
-        "array inside the certified interval; non-trivial = every α_n and d₁ got a certified interval of width ≤ 1e-9 "
+        "array inside the certified interval; aliasing stream (several OrderingCone objects built from one re-used "
+        "float64/int64/float32/Fortran caller array that is overwritten afterwards: cone.W must stay the private copy of "
+        "the matrix given and cone.alpha must be certified for the cone.W the object holds); non-trivial = every α_n and d₁ got a certified interval of width ≤ 1e-9 "
         "and the direction certificate is ≤ 1e-6; distinct by the exact W matrix")
 ASSUMPTIONS = [
     "cones have non-empty interior (every generated cone has an interior direction by construction)",
@@ -142,6 +144,12 @@ def gen(ctx):
         k += 1
         return (k % ctx.nworkers) == ctx.worker
 
+    # ---- aliasing: several cones from one re-used caller array (fixed cases in every run, then random)
+    for c in _gen_alias_fixed():
+        if mine():
+            yield c
+    for _ in range(ctx.n(12, 800)):
+        yield _gen_alias_random(rng)
     # ---- structured: every bundled cone
     for d in range(2, 6):
         if mine():
@@ -413,9 +421,150 @@ def _bits_to_float(s):
     return struct.unpack("<d", struct.pack("<Q", int(s)))[0]
 
 
+# ----------------------------------------------------------------------------- aliasing stream
+def _alias_buffer(shape, dtype):
+    if dtype == "fortran":
+        return np.empty(shape, dtype=np.float64, order="F")
+    return np.empty(shape, dtype={"float64": np.float64, "int64": np.int64, "float32": np.float32}[dtype])
+
+
+def _gen_alias_fixed():
+    from harness.cones import EXACT_CONES
+    from vopy.utils import get_2d_w
+
+    def rows(A):
+        return [[float(t) for t in r] for r in A]
+
+    acute = np.array([[1.0, -2, 4], [4, 1.0, -2], [-2, 4, 1.0]])
+    acute /= np.linalg.norm(acute[0])
+    obtuse = np.array([[1, 0.4, 1.6], [1.6, 1, 0.4], [0.4, 1.6, 1]]) / np.linalg.norm([1, 0.4, 1.6])
+    ints = [EXACT_CONES[n][0] for n in ["orthant2", "acute2", "obtuse2", "skew2"]]
+    return [
+        {"kind": "alias", "dtype": "float64", "wrap": False, "final": "none",
+         "seq": [rows(get_2d_w(t)) for t in (30.0, 60.0, 120.0)]},
+        {"kind": "alias", "dtype": "float64", "wrap": False, "final": "scale", "seq": [rows(acute), rows(obtuse)]},
+        {"kind": "alias", "dtype": "int64", "wrap": False, "final": "zero", "seq": [rows(W) for W in ints]},
+        {"kind": "alias", "dtype": "float32", "wrap": True, "final": "scale",
+         "seq": [rows(get_2d_w(t).astype(np.float32)) for t in (45.0, 135.0)]},
+        {"kind": "alias", "dtype": "fortran", "wrap": True, "final": "zero",
+         "seq": [rows(get_2d_w(t)) for t in (20.0, 90.0, 150.0)]},
+        {"kind": "alias", "dtype": "float64", "wrap": True, "final": "overwrite",
+         "seq": [[[1.0, 0.0, 0.0], [0.0, 1.0, 0.0], [0.0, 0.0, 1.0]], rows(acute)]},
+    ]
+
+
+def _gen_alias_random(rng):
+    dtype = rng.choice(["float64", "float64", "fortran", "float32", "int64"])
+    if dtype == "int64":
+        W1 = [[float(int(4 * t)) for t in r] for r in _rand_cone(rng, rng.choice(SHAPES), normalise=False)]
+        if not all(any(r) for r in W1):
+            W1 = [[1.0, 0.0], [0.0, 1.0]]
+    else:
+        W1 = _rand_cone(rng, rng.choice(SHAPES))
+        if dtype == "float32":
+            W1 = [[float(np.float32(t)) for t in r] for r in W1]
+    seq = [W1]
+    for _ in range(rng.randint(1, 3)):
+        # another cone of the same shape: rows reversed / re-signed and, for float buffers, re-scaled per row
+        prev = seq[-1]
+        nxt = [list(r) for r in reversed(prev)]
+        j = rng.randrange(len(nxt[0]))
+        nxt = [[(-t if k == j else t) for k, t in enumerate(r)] for r in nxt]
+        if dtype != "int64":
+            nxt = [[float(np.float32(c * t)) if dtype == "float32" else c * t for t in r]
+                   for r, c in zip(nxt, [rng.choice([0.5, 1.0, 2.0]) for _ in nxt])]
+        seq.append(nxt)
+    return {"kind": "alias", "dtype": dtype, "wrap": rng.random() < 0.5,
+            "final": rng.choice(["scale", "zero", "overwrite", "none"]), "seq": seq}
+
+
+def _certify_alpha_for(ctx, case, W, alpha, key, what, extra):
+    """rational certificates for α of the matrix `W` (float64 ndarray); raises `key` when `alpha[n]` is outside
+    the certified interval (± solver tolerance).  Returns True iff every row was certified."""
+    N, m = W.shape
+    Wq = [[_F(t) for t in row] for row in W]
+    ws = core.qmat(W)
+    d1c = propose_d1(W, Wq) if np.any(W) else None
+    interior = d1c[0] if d1c else None
+    allok = True
+    for n in range(N):
+        xq, lamq = propose_alpha(W, Wq, n, interior)
+        lo = ctx.ask("alo", ws, str(n), _qv(xq)) if xq is not None else "inconclusive"
+        hi = ctx.ask("ahi", ws, str(n), _qv(lamq)) if lamq is not None else "inconclusive"
+        if lo == "inconclusive" or hi == "inconclusive":
+            ctx.count("inconclusive_alpha")
+            allok = False
+            continue
+        ctx.count("alpha_rows_certified")
+        band = TOL_BAND * max(Fraction(1), _sqrt_up(_dot(Wq[n], Wq[n]), 20))
+        if ctx.ask("inband", lo, hi, core.q(band), core.q(alpha[n])) != "ok":
+            ctx.violation(key, what, case, detail=dict(extra, row=n, alpha=repr(alpha[n]), lo=float(Fraction(lo)),
+                                                       hi=float(Fraction(hi))))
+            return False
+    return allok
+
+
+def _run_alias(ctx, case):
+    """Several cones built from ONE caller-owned ndarray that is overwritten between and after the constructions.
+    The cone must own its matrix (no aliasing), and `cone.alpha` must be the optimum for the `cone.W` the object holds
+    NOW.  Only the caller's array is written to — never anything reached through the cone object."""
+    from vopy.order import PolyhedralConeOrder
+    from vopy.ordering_cone import OrderingCone
+
+    dtype = case["dtype"]
+    ctx.count("kind_alias_" + dtype)
+    seq = [np.array(W, dtype=float) for W in case["seq"]]
+    buf = _alias_buffer(seq[0].shape, dtype)
+    built = []
+    try:
+        for Wk in seq:
+            buf[...] = Wk
+            cone = OrderingCone(buf)
+            if case.get("wrap"):
+                cone = PolyhedralConeOrder(cone).ordering_cone
+            built.append((cone, np.array(cone.W, copy=True), buf.copy()))
+    except Exception as e:
+        ctx.violation("alpha-crash:" + core.exc_key(e), f"OrderingCone({dtype} ndarray) raised {type(e).__name__}: {e}", case)
+        return
+    fin = case.get("final", "none")
+    if fin == "scale":
+        buf *= 3
+    elif fin == "zero":
+        buf[...] = 0
+    elif fin == "overwrite":
+        buf[...] = buf[::-1].copy() * 2
+    good = True
+    for k, (cone, w_at, given) in enumerate(built):
+        Wnow = np.asarray(cone.W)
+        det = {"cone_index": k, "dtype": dtype, "W_given": given.tolist(), "W_now": Wnow.tolist()}
+        same = Wnow.shape == w_at.shape and Wnow.dtype == w_at.dtype and np.array_equal(Wnow, w_at)
+        if np.shares_memory(Wnow, buf) or not same:
+            ctx.violation("cone-aliases-caller-array", "OrderingCone keeps a reference to the caller's ndarray: writing to the "
+                          "caller's array after construction changed cone.W (cone.W must be a private copy, bit-for-bit the "
+                          "matrix given at construction)", case, detail=det)
+            good = False
+        try:
+            alpha = np.array(cone.alpha, dtype=float).reshape(-1)
+        except Exception as e:
+            ctx.violation("alpha-crash:" + core.exc_key(e), f"cone.alpha raised {type(e).__name__}: {e}", case)
+            return
+        if alpha.shape != (Wnow.shape[0],) or not np.all(np.isfinite(alpha)):
+            ctx.violation("alpha-nonfinite", "alpha vector has the wrong shape or is not finite", case, detail=det)
+            return
+        ok = _certify_alpha_for(ctx, case, np.array(Wnow, dtype=float), alpha, "alpha-not-for-current-W",
+                                "cone.alpha[n] is not the maximum of the n-th facet functional over the unit vectors of the "
+                                "cone described by the cone.W the SAME object holds (certified interval ± 1e-7)", det)
+        good = good and ok
+        ctx.count("alias_cones_checked")
+    ctx.count("fully_certified" if good else "partly_inconclusive")
+    ctx.case_done(case, good, canon=[dtype, case["seq"], fin])
+
+
 # ----------------------------------------------------------------------------- the check
 def run_case(ctx, case):
     kind = case["kind"]
+    if kind == "alias":
+        return _run_alias(ctx, case)
     ctx.count("kind_" + kind + ("_" + case["shape"] if kind in ("random", "nonunit", "intw") else ""))
     try:
         order = _build(case)
